@@ -52,7 +52,8 @@ def check(src, rep):
     VAL, ADDR = Res("VAL"), Res("ADDR")
     units = [("V", "float"), ("v", "float"), ("A", "float"), ("var", "float"), ("VAR", "float"), ("varh", "float"), ("Varh", "float"),
              ("kW", "kilo"), ("KW", "kilo"), ("kw", "kilo"), ("kWh", "kilo"), ("KWH", "kilo"), ("kvar", "kilo"), ("kVAr", "kilo"), ("kvarh", "kilo"), ("kVArh", "kilo"),
-             ("m3", "verbatim"), ("Wh", "verbatim"), ("W", "verbatim"), ("", "verbatim"), (None, "verbatim")]
+             ("m3", "verbatim"), ("Wh", "verbatim"), ("W", "verbatim"), ("", "verbatim"), (None, "verbatim"), ("kVA", "verbatim"), ("kV", "verbatim"), ("k", "verbatim"), ("K", "verbatim"),
+             ("kWh2", "verbatim"), ("VA", "verbatim"), ("Ah", "verbatim"), ("kA", "verbatim"), ("var2", "verbatim")]
     kilo_ok = {Res("int", Res("Mult", Res("float", VAL), 1000)), Res("round", Res("Mult", Res("float", VAL), 1000)), Res("int", Res("Mult", Res("Decimal", VAL), 1000)),
                Res("int", Res("round", Res("Mult", Res("float", VAL), 1000)))}
     clock = Res("datetime", *([Res("Add", 2000, Res("int", Res("slice", VAL, 0, 2)))] + [Res("int", Res("slice", VAL, a, a + 2)) for a in (2, 4, 6, 8, 10)]))
